@@ -63,6 +63,9 @@ GENERIC_INHERITANCE = {
     "swapped-order": ("@dataclass\nclass GB(DataClassDictMixin, Generic[GU, GV]):\n    u: GU\n    v: GV\n"
                       "@dataclass\nclass GM(GB[GU, GV], Generic[GV, GU]):\n    pass\n"
                       "@dataclass\nclass GL(GM[int, date]):\n    pass\n", "GL(u=date(2020, 1, 2), v=1)"),
+    "swapped-order-own-field": ("@dataclass\nclass GB(DataClassDictMixin, Generic[GU, GV]):\n    u: GU\n    v: GV\n"
+                                "@dataclass\nclass GM(GB[GU, GV], Generic[GV, GU]):\n    m: Optional[List[GV]] = None\n"
+                                "@dataclass\nclass GL(GM[date, int]):\n    pass\n", "GL(u=1, v=date(2020, 1, 2), m=[date(2021, 3, 4)])"),
     "typevar-reused": ("@dataclass\nclass GB(DataClassDictMixin, Generic[GU]):\n    a: GU\n"
                        "@dataclass\nclass GM(GB[Optional[GU]], Generic[GU]):\n    pass\n"
                        "@dataclass\nclass GL(GM[date]):\n    pass\n", "GL(date(2020, 1, 2))"),
